@@ -981,9 +981,12 @@ def output_orders(ns, pool):
         res = {}
         try:
             inst = value(C, 2)
-            exp = [(v.Attributes.sub_name or k) for k, v in C.get_flat_type_info(C).items()
-                   if not v.Attributes.exc and getattr(inst, k, None) is not None]
-            res['exp'] = exp
+            fti = C.get_flat_type_info(C)
+            # declaration order (parents first) of the names under which fields are written; a field
+            # MUST be written when it is not excluded and has a value (a null one may be: min_occurs)
+            res['decl'] = [(v.Attributes.sub_name or k) for k, v in fti.items()]
+            res['must'] = [(v.Attributes.sub_name or k) for k, v in fti.items()
+                           if not v.Attributes.exc and getattr(inst, k, None) is not None]
             el = get_object_as_xml(inst, C)
             res['xml'] = [c.tag.split('}')[-1] for c in el]
             d = get_object_as_dict(inst, C)
@@ -992,6 +995,19 @@ def output_orders(ns, pool):
             res['err'] = type(e).__name__
         out[h] = res
     return out
+
+
+def dedup(l):
+    out = []
+    for x in l:
+        if x not in out:
+            out.append(x)
+    return out
+
+def output_in_order(got, decl, must):
+    """SPEC of 'every protocol writes fields in declaration order, parents first': the names written
+    are the declared ones that were written, in declared order, and every field with a value is written"""
+    return dedup(got) == [n for n in dedup(decl) if n in got] and all(n in got for n in must)
 
 
 # ------------------------------------------------------------------ hash-seed independence (sub-processes)
@@ -1046,9 +1062,10 @@ def seed_runs(check, hists, seeds):
             if 'err' in o:
                 continue
             for prot in ('xml', 'dict'):
-                if o[prot] != o['exp']:
+                if not output_in_order(o[prot], o['decl'], o['must']):
                     check.fail('C15|order|output|%s' % prot, '%s output of an instance of pool class #%d has fields %r, '
-                               'declaration order (parents first) is %r' % (prot, h, o[prot], o['exp']), {'history': hists[i]})
+                               'declaration order (parents first) is %r, fields with a value %r' % (
+                                   prot, h, o[prot], o['decl'], o['must']), {'history': hists[i]})
     return res
 
 
